@@ -69,3 +69,10 @@ _p("C05", "other",
    "opacity bookkeeping (C04) and to_element/from_element round trip, over an attribute-map model of lxml. The whole-document claim (composited colour "
    "at every sample point) is checked by a bounded component with an independent compositor (labelled bounded).",
    [LXML, CPY, PATHOPS])
+
+_p("C15", "other",
+   "Static typestate obligations over the real AST of class SVG decide, for histories of ANY length, that cached shape edits are flushed before the tree "
+   "is touched or cloned, that stale caches are invalidated after tree surgery and that in-place forms return the receiver and copy forms the clone; the "
+   "shape<->element round trip is proved. Because the typestate analysis is a purpose-built conservative checker, every failure is confirmed by a native "
+   "witness history. Exhaustive short histories against serialise/re-parse are the bounded part (labelled bounded).",
+   [LXML, CPY])
